@@ -138,6 +138,7 @@ ResetTo(e) ==
   /\ firstFinal' = [v \in VRange |-> IF v = 1 THEN 1 ELSE 0]
   /\ pubOK' = TRUE
   /\ okRet' = {<<1, 1>>}
+  /\ marks' = {}
   /\ hist' = <<>>
   /\ last' = [a |-> 0, op |-> "init", cls |-> "other", v |-> -1, c |-> -1, out |-> "ok"]
   /\ scn' = e.id
